@@ -186,7 +186,15 @@ type H struct {
 	stopPoll    chan struct{}
 	ppView      map[string]uint64 // proposal hash -> view of the PREPREPARE / NEW_VIEW the harness sent it in
 	HVSamples   []([2]uint64)
+	HVTimes     []HVTime // one per HVSamples entry
 	ElectionCBs int
+}
+
+// HVTime: when a (height, view) state was first seen by the poller and when the previous state was last seen; the state was
+// entered somewhere in between, so (next.FirstSeen - this.PrevLastSeen) is an upper bound of how long it lasted.
+type HVTime struct {
+	FirstSeen    time.Time
+	PrevLastSeen time.Time
 }
 
 type ChainEntry struct {
@@ -405,6 +413,7 @@ func (h *H) Start() {
 	// (height, view) poller
 	h.stopPoll = make(chan struct{})
 	go func() {
+		lastSeen := time.Now()
 		for {
 			select {
 			case <-h.stopPoll:
@@ -412,12 +421,15 @@ func (h *H) Start() {
 			default:
 			}
 			hv := h.ML.State().HeightView()
+			now := time.Now()
 			s := [2]uint64{uint64(hv.Height()), uint64(hv.View())}
 			h.mu.Lock()
 			if n := len(h.HVSamples); n == 0 || h.HVSamples[n-1] != s {
 				h.HVSamples = append(h.HVSamples, s)
+				h.HVTimes = append(h.HVTimes, HVTime{FirstSeen: now, PrevLastSeen: lastSeen})
 			}
 			h.mu.Unlock()
+			lastSeen = now
 			time.Sleep(50 * time.Microsecond)
 		}
 	}()
